@@ -20,3 +20,4 @@ def rules(ctx):
     S.c02_r4_who_frees(ctx)
     S.tracker_state_rules(ctx)
     S.loop_completeness_rules(ctx)
+    S.savepoint_counter_rules(ctx)
